@@ -500,8 +500,19 @@ fn failing_clone_case(rep: &Report, idx: usize, seed: u64) -> Option<String> {
             return Ok(());
         };
         let body = e.bytes[e.chunk_data_offset as usize..].to_vec();
-        let kind = idx % 3;
+        let kind = idx % 4;
+        // kind 3: the archive is fine but a --seed cannot be opened (typo, no permission)
+        let mut bad_seed: Option<PathBuf> = None;
         let (bytes, what, verify) = match kind {
+            3 => {
+                let sp = dir.join("seeds").join("missing-seed.bin");
+                if rng.chance(1, 2) {
+                    // a directory where a file is expected
+                    let _ = std::fs::create_dir_all(&sp);
+                }
+                bad_seed = Some(sp);
+                (e.bytes.clone(), "a --seed that cannot be opened", false)
+            }
             0 => {
                 let mut d = e.dict.clone();
                 let k = rng.usize_below(d.source_checksum.len());
@@ -537,6 +548,19 @@ fn failing_clone_case(rep: &Report, idx: usize, seed: u64) -> Option<String> {
             seed_output: mode == 1,
             force: mode == 2,
             verify_output: verify,
+            seeds: {
+                let mut v = Vec::new();
+                if let Some(bs) = &bad_seed {
+                    if rng.chance(1, 2) {
+                        // a good seed first: part of the output is already written when the bad one is met
+                        let gp = dir.join("good-seed.bin");
+                        std::fs::write(&gp, &source[..source.len() / 2]).unwrap();
+                        v.push(gp);
+                    }
+                    v.push(bs.clone());
+                }
+                v
+            },
             ..Default::default()
         };
         let trace = dir.join("strace.out");
